@@ -9,7 +9,8 @@
 (*                   rows  : <<[p |-> pattern, m |-> <<indices of the      *)
 (*                             names qnmatch.qnmatch() accepted>>,         *)
 (*                             e |-> qnmatch raised re.error]>>            *)
-(*  Kind = "rules":  namesets : <<<<name, ...>>, ...>>                     *)
+(*  Kind = "rules":  namesets : <<<<[f |-> qualified name, o |-> the       *)
+(*                              object's own name], ...>>, ...>>           *)
 (*                   universe : <<[lv, pat], ...>>, maxrules               *)
 (*                   rows  : <<[rules |-> <<[lv, pat]>>, ns |-> index of   *)
 (*                             the name set, res |-> <<level observed from *)
@@ -71,8 +72,8 @@ MatchReport(i) ==
 RulesReport(i) ==
   LET r    == Rows[i]
       nms  == File.namesets[r.ns]
-      ref  == [k \in 1..Len(nms) |-> PrivacyOf(nms[k], r.rules)]
-      impl == [k \in 1..Len(nms) |-> ImplPrivacy(nms[k], r.rules)]
+      ref  == [k \in 1..Len(nms) |-> PrivacyOfN(nms[k].f, nms[k].o, r.rules)]      \* f: qualified name, o: own name
+      impl == [k \in 1..Len(nms) |-> ImplPrivacyN(nms[k].f, nms[k].o, r.rules)]
   IN [i |-> i, rules |-> r.rules, ns |-> r.ns, ref |-> ref, impl |-> impl, real |-> r.res,
       amb |-> FALSE,
       real_is_ref  |-> r.res = ref,
